@@ -43,20 +43,25 @@ def enumOut (_values : List String) (v : GoVal F) : GoVal F × Bool :=
   | .str s => (.str s, false)        -- D17: not checked against the declared values
   | _ => (.nil, true)
 
+/-- the leaf branch of `resolve` after `CoerceOut` returned `(r, e)`: the error is recorded and, when
+`nullOnErr` (read from the source: `result = nil` in the error block), the value is dropped -/
+def leafOut (nullOnErr : Bool) (out : GoVal F × Bool) : GoVal F × Bool :=
+  (if out.2 && nullOnErr then .nil else out.1, out.2)
+
 /-- `resolve` for non-object types; returns the response value and the number of errors -/
-def resolveData (ext : Ext F) (tb : Scalar → Table) : TRef → Data F → ROut F × Nat
+def resolveData (ext : Ext F) (tb : Scalar → Table) (nullOnErr : Bool) : TRef → Data F → ROut F × Nat
   | _, .leaf .nil => (.leaf .nil, 0)                     -- `IsNil(obj)`: passed through
-  | .nonNull t, d => resolveData ext tb t d
+  | .nonNull t, d => resolveData ext tb nullOnErr t d
   | .list t, .list xs =>
-    let rs := xs.map (resolveData ext tb t)
+    let rs := xs.map (resolveData ext tb nullOnErr t)
     (.list (rs.map (·.1)), (rs.map (·.2)).sum)
   | .list _, .slice .fast xs => (.list (xs.map .leaf), 0)  -- D18: elements never coerced
   | .list t, .slice .reflect xs =>
-    let rs := xs.map (fun x => resolveData ext tb t (.leaf x))
+    let rs := xs.map (fun x => resolveData ext tb nullOnErr t (.leaf x))
     (.list (rs.map (·.1)), (rs.map (·.2)).sum)
   | .list _, .leaf _ => (.leaf .nil, 1)                  -- "%T is not a list type"
-  | .scalar s, .leaf v => let (r, e) := coerce ext (tb s) v; (.leaf r, if e then 1 else 0)
-  | .scalar s, _ => let (r, e) := coerce ext (tb s) (.other "list"); (.leaf r, if e then 1 else 0)
+  | .scalar s, .leaf v => let (r, e) := leafOut nullOnErr (coerce ext (tb s) v); (.leaf r, if e then 1 else 0)
+  | .scalar s, _ => let (r, e) := leafOut nullOnErr (coerce ext (tb s) (.other "list")); (.leaf r, if e then 1 else 0)
   | .enum vals, .leaf v => let (r, e) := enumOut vals v; (.leaf r, if e then 1 else 0)
   | .enum _, _ => (.leaf .nil, 1)
 
